@@ -63,7 +63,10 @@ class C17(Prop):
                     alts = gen.perm(rng, range(1, m + 1))
                     cuts = sorted(rng.randint(0, m) for _ in range(k - 1))
                     pool.append([alts[a:b] for a, b in zip([0] + cuts, cuts + [m])])
-                prefs = [rng.choice(pool) for _ in range(rng.randint(1, 8))]
+                nraw = rng.randint(1, 8)
+                if rng.random() < 0.06:
+                    nraw = rng.choice([260, 300, 700])      # scale: hundreds of raw ballots, repetitions scattered
+                prefs = [rng.choice(pool) for _ in range(nraw)]
                 reset = rng.random() < 0.5
                 mult = []
                 if reset:
@@ -75,8 +78,16 @@ class C17(Prop):
                 yield {"kind": "factorise", "prefs": prefs, "mult": mult, "reset": reset}
                 continue
             c = gen.ordinal_case(rng, m=rng.randint(1, 6), n=rng.randint(1, 6), max_mult=20,
-                                 tie_p=rng.choice([0.2, 0.5, 0.7]))
+                                 tie_p=rng.choice([0.2, 0.5, 0.7]),
+                                 style="concat" if rng.random() < 0.1 else None)
             mode = rng.choice(["size", "count", "relative", "size", "count"])
+            if len(c["alts"]) >= 9 and rng.random() < 0.7 and r >= 0.27:
+                # scale: ten or more categories
+                kk = rng.randint(10, min(14, len(c["alts"]) + 2))
+                mode = rng.choice(["size", "count"])
+                yield {"kind": "from_ordinal", **c, "mode": mode, "params": [1] * kk if mode == "size" else
+                       [rng.choice([1, 1, 2]) for _ in range(kk)]}
+                continue
             if r < 0.27:
                 yield {"kind": "guard", **c, "which": rng.choice(["none", "two", "three"])}
                 continue
